@@ -257,7 +257,7 @@ class BootSigmaStub:
                 if not isinstance(seedv, (int, np.integer)):
                     raise sym.Inconclusive("bootstrap seeded with an object of type %s" % type(seedv).__name__)
                 args = cells(d) + [RV(float(confidence_level)), RV(int(seedv)), RV(int(n_resamples)),
-                                   RV(hash(getattr(statistic, "__name__", "f")) % 997)]
+                                   RV(__import__("zlib").crc32(getattr(statistic, "__name__", "f").encode()) % 997)]
                 v = stub_values(ctx, "BOOT_%d" % d.size, args, 1, label="boot_sigma%d" % stub.calls)[0]
                 if not getattr(ctx, "concrete", False):
                     ctx.assume(v > 0)
